@@ -77,6 +77,13 @@ class Worker(threading.Thread):
                             r["value"] = _now(self.shared.dag.executor()(*[prog.dec(a) for a in op["args"]]))
                         else:
                             r["value"] = _now(self.shared.dag(*[prog.dec(a) for a in op["args"]]))
+                elif op["op"] == "compose":
+                    # deriving a DAG from the shared one (what it computes is C19's business) must leave the shared DAG alone
+                    ids_ = self.shared.node_ids()
+                    try:
+                        self.shared.dag.compose(f"cmp{self.idx}_{i}", [ids_[s] for s in op["inputs"]], [ids_[s] for s in op["outputs"]])
+                    except ValueError:
+                        pass
                 elif op["op"] == "outside":
                     r["value"] = self.outside(prog.dec(op["arg"]))
                 elif op["op"] == "reconf":
@@ -162,6 +169,7 @@ def _script(case: Dict[str, Any], res: CaseResult) -> None:
     try:
         shared = prog.build(SP, mc=2, is_async=bool(case.get("shared_async")))
         _now(shared.dag.setup())
+        shared_before = dump(shared.dag)
         outside_fn = prog.make_body("outfn", {"kind": "term"})
         outside = tawazi.xn(outside_fn)
         # reference dumps: every build program alone
@@ -196,9 +204,9 @@ def _script(case: Dict[str, Any], res: CaseResult) -> None:
             started[w.idx] = True
             w.go.release()
             reached = _wait_step(w)
-            if others_paused and reached and nxt < len(w.ops) and w.ops[nxt]["op"] in ("call", "outside", "reconf"):
+            if others_paused and reached and nxt < len(w.ops) and w.ops[nxt]["op"] in ("call", "outside", "reconf", "compose"):
                 during_pause += 1
-            if others_paused and not reached and nxt < len(w.ops) and w.ops[nxt]["op"] in ("call", "outside", "reconf"):
+            if others_paused and not reached and nxt < len(w.ops) and w.ops[nxt]["op"] in ("call", "outside", "reconf", "compose"):
                 wit = _blocked_in_tawazi(w)
                 if wit:
                     res.viol("blocked-by-foreign-description", f"thread {w.idx} op {nxt} ({w.ops[nxt]['op']}) does not finish while another thread is paused inside a DAG description: it is blocked at {wit}")
@@ -238,6 +246,9 @@ def _script(case: Dict[str, Any], res: CaseResult) -> None:
                     want = prog.ref_run(case["private"], [], prog.Ref())
                     if prog.foreign_objects(r.get("value")) or r.get("value") != want:
                         res.viol("reconf-dag-value", f"a DAG reconfigured while other threads were active returns {r.get('value')!r}, reference {want!r}" + tag)
+                elif op["op"] == "compose":
+                    if "exc" in r:
+                        res.viol("compose-raised", f"compose() on the shared DAG raised {type(r['exc']).__name__}: {str(r['exc'])[:200]}" + tag)
                 elif op["op"] == "outside":
                     beh = case.get("outside_behavior", "error")
                     if beh == "error":
@@ -264,6 +275,8 @@ def _script(case: Dict[str, Any], res: CaseResult) -> None:
                     want = prog.ref_run(op["prog"], [prog.dec(a) for a in op.get("args", [])], prog.Ref())
                     if prog.foreign_objects(r.get("value")) or r.get("value") != want:
                         res.viol("built-dag-value", f"a DAG built while other threads were active returns {r.get('value')!r}, reference {want!r}" + tag)
+        if dump(shared.dag) != shared_before:
+            res.viol("shared-dag-changed", "the DAG shared by the threads is not what it was before they used it (calls, executors, compose() must leave it alone)")
         # when everything is over the process-wide configuration is what the user set, and acts accordingly
         now = tawazi.cfg.TAWAZI_EXECNODE_OUTSIDE_DAG_BEHAVIOR
         if now != XNOutsideDAGCall(case.get("outside_behavior", "error")):
@@ -405,6 +418,8 @@ def cases(draw: Any, tier: str) -> Dict[str, Any]:
                                 n_setup=draw(st.integers(0, 1)), name="S"))
     # make sure the argument matters
     shared["body"][-1]["args"].append(["p", "p0"])
+    if draw(st.booleans()):
+        shared["params"] = [["p0", {"d": draw(st.sampled_from([7, "dflt"]))}]]  # calls may then omit the argument
     if draw(st.sampled_from([True] + [False] * 11)):
         progs = [draw(gen.flat_prog(min_sites=1, max_sites=4, max_deps=2, resources=("thread", "main-thread"),
                                     dep_kinds=("pos", "kw"), name=f"BS{t}", reuse=True)) for t in range(draw(st.integers(2, 4)))]
@@ -421,12 +436,18 @@ def cases(draw: Any, tier: str) -> Dict[str, Any]:
     for t in range(nthreads):
         ops: List[Dict[str, Any]] = []
         for _ in range(draw(st.integers(1, 3))):
-            k = draw(st.sampled_from(["call", "call", "outside", "build", "build", "reconf"]))
+            k = draw(st.sampled_from(["call", "call", "outside", "build", "build", "reconf", "compose"]))
             if t == 0 and not ops:
                 k = "build"  # thread 0 starts with a (usually pausing) build
             if k == "call":
-                ops.append({"op": "call", "args": [draw(st.sampled_from([0, 1, 10, "a", None]))],
+                ops.append({"op": "call", "args": ([] if (shared["params"][0][1] is not None and draw(st.booleans()))
+                                                   else [draw(st.sampled_from([0, 1, 10, "a", None]))]),
                             "via": draw(st.sampled_from(["call", "call", "executor"]))})
+            elif k == "compose":
+                ssites = [s["site"] for s in shared["body"] if not shared["fns"][s["fn"]].get("setup")]
+                outs_ = draw(st.lists(st.sampled_from(ssites), min_size=1, max_size=2, unique=True))
+                ins_ = draw(st.lists(st.sampled_from([s for s in ssites if s not in outs_] or ssites[:0]), min_size=0, max_size=1, unique=True)) if len(ssites) > len(outs_) else []
+                ops.append({"op": "compose", "inputs": ins_, "outputs": outs_})
             elif k == "outside":
                 ops.append({"op": "outside", "arg": draw(st.sampled_from([5, "z"]))})
             elif k == "reconf":
